@@ -107,6 +107,22 @@ def annotations(deep):
         if c == "Optional" and t[0] == "Optional":
           continue
         out.append((c, t))
+    # unions whose members are parameterisations of one class: a value that
+    # fails the first member may still conform to a later one
+    same = [[("List", ("int",)), ("List", ("str",))],
+            [("List", ("str",)), ("List", ("int",)), ("List", ("B",))],
+            [("Tuple", ("int",), ("int",)), ("Tuple*", ("int",))],
+            [("Tuple", ("int",), ("str",)), ("Tuple", ("str",), ("int",))],
+            [("Tuple", ("int",)), ("Tuple", ("int",), ("str",))],
+            [("Dict", ("str",), ("int",)), ("Dict", ("int",), ("str",))],
+            [("Set", ("int",)), ("Set", ("str",))],
+            [("Type", ("B",)), ("Type", ("int",))],
+            [("Type", ("int",)), ("Type", ("str",)), ("Type", ("E",))],
+            [("Sequence", ("int",)), ("Sequence", ("str",))],
+            [("Optional", ("int",)), ("List", ("int",)), ("List", ("None",))]]
+    for members in same:
+      out.append(("Union",) + tuple(members))
+      out.append(("Union",) + tuple(reversed(members)))
     for t in d1:
       out.append(("Dict", ("str",), t))
       out.append(("Mapping", ("str",), t))
@@ -338,6 +354,17 @@ def check_module(ctx, rows):
         ctx.event("excluded:union-typed-argument-leniency")
         continue
       sig = "violation-missed:%s:%s" % (site, shape)
+      if shape == "Union" and isinstance(v, (list, tuple, set, frozenset,
+                                             dict)):
+        heads = [x[0] for x in a[1:] if len(x) > 1]
+        items = list(v.values()) if isinstance(v, dict) else list(v)
+        if (len(heads) != len(set(heads)) and
+            len({type(x) for x in items}) > 1):
+          # root cause bucket: the value is matched once per combination of
+          # its element bindings and each combination fits a different
+          # parameterisation of the same class
+          sig = ("violation-missed:same-class-union-matched-per-element-"
+                 "combination")
       if shape == "Collection" and isinstance(v, (list, tuple, set, frozenset,
                                                   dict)):
         sig = "violation-missed:Collection-element-type-not-enforced"
